@@ -6,19 +6,21 @@ calls between ticks; (H) the random lifecycle histories shared with C02 (plus na
 on isobar's Timeline and on the model inside Coq.  Oracles: (P) exact closed form of every track's life written from the property
 text; (H) trace invariants (limit, refusal, named replace, silence after unschedule / clear / while muted, stop exactly when done);
 (I) lifecycles of interpolating control tracks (harness/c06_interp.py, model Sched/InterpLife.v, driver impl/c06_impl.py);
-(T) callback operations reaching a track in a transitional state (harness/c06_transit.py, lemmas Sched/TransitProofs.v)."""
+(T) callback operations reaching a track in a transitional state (harness/c06_transit.py, lemmas Sched/TransitProofs.v);
+(S) scene changes: callbacks whose removals and additions cancel (harness/c06_scene.py)."""
 from common import *
 import sched_common as S
 import sched_gen as G
 import c06_interp as I
 import c06_transit as TR
+import c06_scene as SC
 from fractions import Fraction as F
 from math import ceil
 
 PROP = "C06"
 META = {
  "engine": "S-scheduler",
- "text": "Coq theorems (Props/C06.v) about the executable model of Timeline/Track (Sched/Model.v): get_next_event raises StopIteration, touching nothing, once count >= max (max not None/0) and otherwise adds exactly 1 per event pulled; a started track whose events last >= 1 tick performs, after ANY number of ticks, exactly as many events as it pulled, never more than min(count left, stream length), delivers an event while below that limit, raises StopIteration at it, and reaches a finite limit after finitely many ticks (induction over ticks, no bound); StopIteration leaves Track.tick iff the due track's loop meets the end of the stream or the count limit; the track is finished iff no note-off is pending at that moment, a finished remove_when_done track leaves the timeline in that same turn and any other stays; Timeline.tick raises StopIteration iff the tick left no track and no pending action and stop_when_done is set - then time does not advance - and never when the flag is off; over ALL histories (any interleaving of ticks with schedule / named re-schedule / update / unschedule / clear / mute / unmute / nudge, callbacks issuing such calls, faults; induction over the history) the number of tracks never exceeds a positive max_tracks, a refused schedule returns TrackLimitReached and changes nothing, ids are distinct and never reused so a track that has left is never scheduled again and takes no turn (no call, no effect); schedule(name, replace) on a timeline holding that name keeps the number, order and ids of the tracks, resets the track's count to 0 and unmutes it; events performed while muted make no call. No reachable timeline - and no state between two turns of one tick - lists a track that is finished and remove_when_done (the finished track leaves inside its own turn), so an operation issued by a later track's callback in the tick in which a track finishes cannot land on the finished track: a named re-schedule then creates a new track, and a track that a named re-schedule did update survives every other track's finishing step (C06_no_zombie, C06_no_zombie_between_turns, C06_finished_turn_leaves, C06_same_tick_reschedule). Interpolating (linear / cosine) control tracks, whose ticks reach perform_event from other call sites (model Sched/InterpLife.v around the track machine of Sched/Interp.v): for every state of the track and EVERY history of ticks / mute / unmute / unschedule, no control call on any tick on which the track is muted, unscheduled or not yet started, and on every other tick exactly the outcome the never-muted track has on the running tick of the same index (muting neither shifts nor delays the curve nor changes the events drawn or the finishing tick); after unschedule nothing, in any later history. Tied to /repo on every run by a correspondence check of planned lifecycles and random lifecycle histories executed on the real Timeline with a recording device and on the model inside Coq (vm_compute), compared call by call, result by result and track list by track list after every operation, plus independent oracles (exact closed form of every planned track's life: events performed = min(count, length) at their exact ticks, removal tick, tick of StopIteration; trace invariants on the random histories), by callback operations (named re-schedule, update, unschedule, mute ...) aimed at a track on the ticks around the one on which it finishes / reaches its count / is finished but kept, from a caller placed before or after it (closed-form oracle), and by lifecycles of interpolating tracks (mute / unmute / unschedule / stop / clear at every phase of the curve, deferred start, count, kept-when-done, stop-when-done, a note track next to it) run on the real Timeline, judged by a closed-form oracle and compared with Sched/InterpLife.v inside Coq.",
+ "text": "Coq theorems (Props/C06.v) about the executable model of Timeline/Track (Sched/Model.v): get_next_event raises StopIteration, touching nothing, once count >= max (max not None/0) and otherwise adds exactly 1 per event pulled; a started track whose events last >= 1 tick performs, after ANY number of ticks, exactly as many events as it pulled, never more than min(count left, stream length), delivers an event while below that limit, raises StopIteration at it, and reaches a finite limit after finitely many ticks (induction over ticks, no bound); StopIteration leaves Track.tick iff the due track's loop meets the end of the stream or the count limit; the track is finished iff no note-off is pending at that moment, a finished remove_when_done track leaves the timeline in that same turn and any other stays; Timeline.tick raises StopIteration iff the tick left no track and no pending action and stop_when_done is set - then time does not advance - and never when the flag is off; over ALL histories (any interleaving of ticks with schedule / named re-schedule / update / unschedule / clear / mute / unmute / nudge, callbacks issuing such calls, faults; induction over the history) the number of tracks never exceeds a positive max_tracks, a refused schedule returns TrackLimitReached and changes nothing, ids are distinct and never reused so a track that has left is never scheduled again and takes no turn (no call, no effect); schedule(name, replace) on a timeline holding that name keeps the number, order and ids of the tracks, resets the track's count to 0 and unmutes it; events performed while muted make no call. No reachable timeline - and no state between two turns of one tick - lists a track that is finished and remove_when_done (the finished track leaves inside its own turn), so an operation issued by a later track's callback in the tick in which a track finishes cannot land on the finished track: a named re-schedule then creates a new track, and a track that a named re-schedule did update survives every other track's finishing step (C06_no_zombie, C06_no_zombie_between_turns, C06_finished_turn_leaves, C06_same_tick_reschedule). Whatever list of operations a callback performs after a track is out of the list - e.g. schedule as many tracks as it removed - the track stays out and its turn makes no call (C06_removed_by_callback_silent, C06_unschedule_then_anything). Interpolating (linear / cosine) control tracks, whose ticks reach perform_event from other call sites (model Sched/InterpLife.v around the track machine of Sched/Interp.v): for every state of the track and EVERY history of ticks / mute / unmute / unschedule, no control call on any tick on which the track is muted, unscheduled or not yet started, and on every other tick exactly the outcome the never-muted track has on the running tick of the same index (muting neither shifts nor delays the curve nor changes the events drawn or the finishing tick); after unschedule nothing, in any later history. Tied to /repo on every run by a correspondence check of planned lifecycles and random lifecycle histories executed on the real Timeline with a recording device and on the model inside Coq (vm_compute), compared call by call, result by result and track list by track list after every operation, plus independent oracles (exact closed form of every planned track's life: events performed = min(count, length) at their exact ticks, removal tick, tick of StopIteration; trace invariants on the random histories), by callback operations (named re-schedule, update, unschedule, mute ...) aimed at a track on the ticks around the one on which it finishes / reaches its count / is finished but kept, from a caller placed before or after it (closed-form oracle), by scene changes (one callback removes k tracks and schedules k new ones, or clear() + schedules, the removed tracks before and after the caller and due on that tick; silence / stuck-note / projection oracle), and by lifecycles of interpolating tracks (mute / unmute / unschedule / stop / clear at every phase of the curve, deferred start, count, kept-when-done, stop-when-done, a note track next to it) run on the real Timeline, judged by a closed-form oracle and compared with Sched/InterpLife.v inside Coq.",
  "note": "Trusted: Coq kernel+VM; the Python harness. Modelled, not verified: float arithmetic of isobar (exact integer units in the model); events are taken already resolved (C03). The count theorems are stated for one stream from its start (events >= 1 tick, no device fault); their composition with updates that replace the stream mid-life, and the per-track statements' composition into whole-timeline traces, is validated by the correspondence, not proved. The closed form of the removal tick (max of stream end and last release) is checked by the oracle, the theorem gives the condition (StopIteration while nothing is pending). Callbacks that unschedule the running track from inside its own tick are outside the generated domain. Interpolating tracks: one track per model instance; named re-schedule / update / nudge / callbacks / faults of an interpolating track are neither modelled nor generated; cos(pi x) from libm as in C15.",
 }
 
@@ -453,6 +455,8 @@ def check(run):
         S.report_disagreement(run, fin[i], results[i], "correspondence", "Timeline/Track", {"meta": scs[i]["meta"]})
     # stratum T: operations issued from another track's callback in the tick in which the target finishes / is in a transitional state
     TR.transit_part(run, 140 if quick else 1500)
+    # stratum S: scene changes - one callback removes k tracks and schedules k new ones (the number of tracks is unchanged)
+    SC.scene_part(run, 24 if quick else 400)
     # stratum I: lifecycle operations applied to interpolating (linear / cosine) control tracks
     I.interp_part(run, 150 if quick else 1500)
     run.cov["rule"] = ("one case = one history: (P) planned lifecycle of 1-4 schedule calls (lengths 0/1/3/endless, counts, gates to 8, rwd, names, "
